@@ -8,6 +8,7 @@ import (
 	"runtime"
 	"runtime/debug"
 	"strings"
+	"time"
 
 	"github.com/IBM/fluent-forward-go/fluent/protocol"
 )
@@ -290,6 +291,37 @@ func init() {
 		track(false, "unpacked-entries", func() string { return renderEntries(el) })
 		return a, fmt.Sprintf("%s left=%d %s%s", renderEntries(el), len(left), st, checkTracked())
 	}
+	// SCRIB n: a caller builds messages of n entries with each constructor and then overwrites everything it was handed (the value the
+	// size option points to, the option strings, the stream bytes).  It owns those values; nothing built later may be affected.
+	opsArgs["SCRIB"] = func(a []string) ([]string, string) {
+		histMode()
+		n := int(atoi64(a[0]))
+		el := make(protocol.EntryList, n)
+		for i := range el {
+			el[i] = protocol.EntryExt{Timestamp: protocol.EventTime{Time: time.Unix(int64(1+i), 0)}, Record: map[string]interface{}{}}
+		}
+		scrib := func(o *protocol.MessageOptions, stream []byte) {
+			if o != nil {
+				if o.Size != nil {
+					*o.Size = 987654321
+				}
+				o.Chunk, o.Compressed = "scribbled", "scribbled"
+			}
+			for i := range stream {
+				stream[i] = 0xee
+			}
+		}
+		if m := protocol.NewForwardMessage("t", el); m != nil {
+			scrib(m.Options, nil)
+		}
+		if m, err := protocol.NewPackedForwardMessage("t", el); err == nil && m != nil {
+			scrib(m.Options, m.EventStream)
+		}
+		if m, err := protocol.NewCompressedPackedForwardMessage("t", el); err == nil && m != nil {
+			scrib(m.Options, m.EventStream)
+		}
+		return a, "done" + checkTracked()
+	}
 	opsArgs["MM"] = func(a []string) ([]string, string) {
 		histMode()
 		i := int(atoi64(a[0]))
@@ -402,6 +434,15 @@ func genPacked(o *Out, r *Rng, n int, tier string) {
 		}
 		return "L(" + strings.Join(p, ";") + ")"
 	}
+	// a caller that overwrites what an earlier constructor call handed it (SCRIB), then builds messages of the same entry count
+	for _, k := range []int{0, 1, 2, 3, 15, 16, 100, 255, 256, 300} {
+		o.emit("C07", "HRESET")
+		o.emit("C03", "SCRIB", itoa(int64(k)))
+		o.emit("C03", "PK", "74", tiny(k))
+		o.emit("C03", "CP", "74", tiny(k))
+		o.emit("C03", "SCRIB", itoa(int64(k)))
+		o.emit("C03", "PK", "74", tiny(k))
+	}
 	for _, k := range []int{300, 700, 1500, 3000, 4500, 6000, 9000, 14000} {
 		o.emit("C07", "HRESET")
 		o.emit("C03", "CP", "74", tiny(k))
@@ -489,7 +530,11 @@ func genPacked(o *Out, r *Rng, n int, tier string) {
 			case 9:
 				o.emit("C07", "PB", tag, hx(r.Bytes(r.Intn(100))))
 			case 10:
-				o.emit("C07", "MM", itoa(int64(r.Intn(4))))
+				if r.Bool() {
+					o.emit("C03", "SCRIB", itoa(int64(r.Intn(6))))
+				} else {
+					o.emit("C07", "MM", itoa(int64(r.Intn(4))))
+				}
 			default:
 				m, _ := genGoMsg(r, codecTypes[r.Intn(4)], tier).MarshalMsg(nil)
 				o.emit("C07", "GCH", hx(m))
